@@ -32,7 +32,8 @@ _SPECIAL_BYTES = [0x0A, 0x0D, 0x20, 0x09, 0x22, 0x23, 0x24, 0x28, 0x29, 0x2C, 0x
                   0x41, 0x5A, 0x61, 0x7A, 0x30, 0x39, 0x00, 0x7F, 0x80, 0xFF]
 TRICKY_CHARS = sorted(set(
     [chr(base + b) for b in _SPECIAL_BYTES for base in (0x100, 0x4E00, 0x1F300)]
-    + [chr(c) for c in (0x80, 0xFF, 0x100, 0x7FF, 0x800, 0xFFFD, 0x10000, 0x10FFFF, 0xD7FF, 0xE000, 0x2028, 0x2029, 0xFEFF)]))
+    + [chr(c) for c in (0x80, 0xFF, 0x100, 0x7FF, 0x800, 0xFFFD, 0x10000, 0x10FFFF, 0xD7FF, 0xE000, 0x2028, 0x2029, 0xFEFF,
+                          0xFF12, 0xB2, 0xBD, 0x663, 0x2163, 0xC9, 0x1C5, 0xAA, 0xFF3F, 0xFF04)]))
 # ... but not the ones that are Unicode whitespace (they would change the token sequence inside names/comments deliberately elsewhere)
 TRICKY_CHARS = [c for c in TRICKY_CHARS if not c.isspace() and c not in '\x85\u2028\u2029']
 RESERVED_CASE_NAMES = ['Start', 'Struct', 'Enum', 'Terminal', 'STRUCT', 'ENUM', 'Enums', 'StartKw', 'TERMINAL', 'START']
@@ -193,7 +194,35 @@ def gen_grammar(rng, adversarial=0.3, max_nts=6, max_terms=5, allow_empty_termin
                  if h not in used]
         if cands:
             g.nts.insert(rng.randint(0, len(g.nts)), dict(name=rng.choice(cands), kind='enum', attrs=(['#[derive(Debug)]'] if behaviour else []), variants=[]))
+    if rng.random() < 0.04:
+        lengthen_a_name(rng, g)
     return g
+
+
+def lengthen_a_name(rng, g):
+    """One terminal or nonterminal (every occurrence) gets a name of 255..300 characters: lengths beyond one byte."""
+    k = rng.choice([255, 256, 257, 300])
+    if g.terminals and rng.random() < 0.5:
+        old = rng.choice(g.terminals)[0]
+        new = (old + 'Qo' * k)[:k]
+        g.terminals = [((new if t == old else t), ty) for t, ty in g.terminals]
+        kind = 'T'
+    else:
+        old = rng.choice(g.nts)['name']
+        new = (old + 'Qo' * k)[:k]
+        for nt in g.nts:
+            if nt['name'] == old:
+                nt['name'] = new
+        if g.start == old:
+            g.start = new
+        kind = 'N'
+    for nt in g.nts:
+        vs = []
+        for vname, fs in nt['variants']:
+            if fs[0] != 'empty':
+                fs = (fs[0], [(f, ((k2, new) if (k2 == kind and x == old) else (k2, x))) for f, (k2, x) in fs[1]])
+            vs.append((vname, fs))
+        nt['variants'] = vs
 
 
 def add_name_relations(rng, g, behaviour=False):
@@ -715,7 +744,8 @@ def layout(rng, items, style='random', shuffle_items=False):
     for it in items:
         for t in it:
             if t == '\n':
-                out.append(rng.choice(['\n', '\r\n', '\n\n', ' \n']) if style != 'plain' else '\n')
+                # nothing at all may follow an attribute: `#[a]#[b]struct` is three tokens
+                out.append(rng.choice(['\n', '\r\n', '\n\n', ' \n', '', '', ' ', '\t', '//c\n']) if style != 'plain' else '\n')
                 prev = '\n'
                 continue
             if prev is not None:
@@ -818,7 +848,7 @@ def mutate_sentence(rng, w, nterm):
 
 # ---------------------------------------------------------------- text-level generators
 
-LEX_PIECES = ['start', 'struct', 'enum', 'terminal', '_', 'Foo', 'bar_9', '$Tok', '$start', '$_', '$_x', '$', ':', '::', ':::',
+LEX_PIECES = ['\uff12', '\u00b2', '\u00bd', '\u0663', '\u2163', '\u00c9', '\u01c5', '\u00aa', '\uff3f', '\uff04', '\uff1a', '$Ab\uff12', 'Ab\u00b2', '$x\u0663y', 'start\u00c9', '$\uff21', '_\u2163', 'start', 'struct', 'enum', 'terminal', '_', 'Foo', 'bar_9', '$Tok', '$start', '$_', '$_x', '$', ':', '::', ':::',
               ',', '(', ')', '{', '}', '<', '>', '#[a]', '#[a(b)]', '#[a[b]{c}(d)]', '#[(]]', '#[', '#', '#[x\n]',
               '#[doc = "é"]', '#[€]', '#[é(]]', '#[€{)}]', '#[doc="ü"(]]', '#[😀[}]', '#[ß(ü])]', '#[a"é"]]', '#[(é)]', '#[{€}]x', '#[\U0001F600 (x)]', '#[a]]', '#[a)]', '#[{)}]', '/', '//', '// c\n', '//é\n',
               '\n', '\r\n', ' ', '\t', ' ', '　', ' ', '4', '4ever', 'x4', 'é', '€', '\U0001F600', '"', "'", ';',
@@ -826,8 +856,12 @@ LEX_PIECES = ['start', 'struct', 'enum', 'terminal', '_', 'Foo', 'bar_9', '$Tok'
               '#[derive(Debug, Clone)]', '#[cfg(any(a, b))]', '​', '﻿', '\x00', '\x7f', '\u0085']
 
 
+# code points on which Rust's Unicode-aware char predicates (is_numeric, is_alphabetic, is_alphanumeric, is_uppercase,
+# is_lowercase, ...) differ from their is_ascii_* counterparts, and look-alikes of Kiki's punctuation: one per general category
+UNI_CLASS = ['\uff12', '\u00b2', '\u00bd', '\u0663', '\u2163', '\u3007', '\u00c9', '\u01c5', '\u00aa', '\u02b0', '\u03a9',
+             '\u00df', '\u65e5', '\u24d0', '\u0301', '\u200d', '\uff3f', '\uff04', '\uff1a', '\uff21', '\uff41', '\u203f']
 # one representative of every kind of lexeme and of every kind of junk, for exhaustive pair / triple coverage
-LEX_CORE = ['start', 'struct', 'enum', 'terminal', '_', 'Abc', 'abc', 'x1', '_x', '$Abc', '$start', '$_', '$', ':', '::', ':::', ',',
+LEX_CORE = UNI_CLASS + ['start', 'struct', 'enum', 'terminal', '_', 'Abc', 'abc', 'x1', '_x', '$Abc', '$start', '$_', '$', ':', '::', ':::', ',',
             '(', ')', '{', '}', '<', '>', '#[a]', '#[a(b)]', '#[', '#', '\u00e9', '\u00a0', '\ufeff', '//', '/', '0', '9a', '"', '-', '.', ';', '=',
             '\u3000', '\r', 'Start', 'terminals']
 LEX_SEPS = ['', ' ', '\n', '//c\n', '\u00a0', '\t']
@@ -876,6 +910,10 @@ def mutate_token_items(rng, items):
     r = rng.random()
     i = rng.randrange(len(flat))
     pool = ['start', 'struct', 'enum', 'terminal', '_', 'Zz', '$Zz', ':', '::', ',', '(', ')', '{', '}', '<', '>', '#[zz]', 'fld']
+    if rng.random() < 0.15:
+        # tokens whose text is long (beyond 255 / 256 / 65535 bytes or characters): attributes and names, ASCII and multi-byte
+        k = rng.choice([255, 256, 257, 300, 70000])
+        pool = ['#[doc = "%s"]' % ('d' * k), '#[doc = "%s"]' % ('\u00e9' * k), 'L' + 'o' * k, '$L' + 'o' * k, 'l' + 'o' * k]
     if rng.random() < 0.2:
         # aim at the places where the neighbouring token matters: right after / before `::`, `$`-names, `<`, `:`
         spots = [k for k, t in enumerate(flat) if t in ('::', ':', '<', ',') or t.startswith('$')]
@@ -1327,6 +1365,125 @@ def conflict_motif(rng, behaviour=False):
                  mk('struct', 'La', [(None, tup([T(y)]))]), mk('struct', 'Lb', [(None, tup([T(y)]))])]
     if rng.random() < 0.5:
         g.nts.reverse()
+    return g
+
+
+def many_symbols_grammar(rng, behaviour=False):
+    """More than 256 terminals, more than 256 rules and more than 256 states, with nothing else of interest: a number that is
+    cut to a byte somewhere (a terminal, rule or state index) shows here.  Too big for the extracted model."""
+    g = Grammar()
+    g.tenum = 'Tok'
+    n = rng.choice([257, 260, 300])
+    types = ['()', 'u32'] if behaviour else ['()']
+    g.terminals = [('T%d' % i, rng.choice(types)) for i in range(n)]
+    g.start = 'Top'
+    T = lambda i: ('T', 'T%d' % i)
+    tup = lambda syms: ('tuple', [(True, q) for q in syms])
+    order = list(range(n))
+    rng.shuffle(order)
+    vs = []
+    for j, i in enumerate(order):
+        k = rng.random()
+        if k < 0.6:
+            vs.append(('V%d' % i, tup([T(i)])))
+        elif k < 0.85:
+            vs.append(('V%d' % i, tup([T(i), T(order[(j + 1) % n])])))
+        else:
+            vs.append(('V%d' % i, tup([T(i), ('N', 'Leaf')])))
+    attrs = ['#[derive(Debug)]'] if behaviour else []
+    g.nts = [dict(name='Top', kind='enum', attrs=attrs, variants=[('One', tup([('N', 'Item')])), ('Two', tup([('N', 'Item'), T(order[1]), ('N', 'Item')]))]),
+             dict(name='Item', kind='enum', attrs=attrs, variants=vs),
+             dict(name='Leaf', kind='struct', attrs=attrs, variants=[(None, tup([T(order[0])]))])]
+    if behaviour:
+        g.tenum_attrs = ['#[derive(Debug)]']
+    return g
+
+
+def far_prefix(rng):
+    """Comment lines of 66..140 KB in front of a file: every byte offset after it is beyond 16 bits (and the multi-byte variant
+    makes byte offsets and character offsets differ by more than 16 bits too)."""
+    fill = rng.choice(['x', 'x', '\u00e9', '\u8868'])
+    n = rng.choice([66000, 70000, 131100]) // len(fill.encode('utf-8'))
+    lines = []
+    while n > 0:
+        k = min(n, rng.choice([1000, 4000, 70000]))
+        lines.append('// ' + fill * k)
+        n -= k
+    return '\n'.join(lines) + '\n'
+
+
+def relate_adjacent_types(rng, g, p=0.4):
+    """Make the payload type of a terminal a near-copy of its predecessor's: the same type, one path (outermost or nested,
+    generic callee or plain) longer or shorter by a leading segment, one segment renamed, or one argument changed.
+    (A cache, a comparison or a dedup keyed on part of a type shows only between such neighbours.)"""
+    import re as _re
+    ts = list(g.terminals)
+    for i in range(1, len(ts)):
+        if rng.random() >= p:
+            continue
+        prev = ts[i - 1][1]
+        paths = list(_re.finditer(r'[A-Za-z_][A-Za-z0-9_]*(?:::[A-Za-z_][A-Za-z0-9_]*)*', prev))
+        r = rng.random()
+        new = prev
+        if r < 0.15 or not paths:
+            new = prev
+        else:
+            m = rng.choice(paths)
+            segs = m.group(0).split('::')
+            k = rng.random()
+            if k < 0.4:
+                segs = [rng.choice(['raw', 'std', 'm_', segs[0]])] + segs
+            elif k < 0.6 and len(segs) > 1:
+                segs = segs[1:]
+            elif k < 0.8:
+                j = rng.randrange(len(segs))
+                segs[j] = segs[j] + rng.choice(['2', '_', 'x'])
+            else:
+                segs = segs + [rng.choice(['T', segs[-1]])]
+            new = prev[:m.start()] + '::'.join(segs) + prev[m.end():]
+        ts[i] = (ts[i][0], new)
+    g.terminals = ts
+
+
+def wide_conflict(rng, conflict=True):
+    """A statement list with N keyword statement forms (N*(N+2) items and more in the start state: 300..700, beyond one byte)
+    and, when `conflict`, one conflict between two rules whose items sit anywhere in that state (first, last or in the
+    middle of the declaration order): reduce/reduce between two nullable prefixes, or shift/reduce with a keyword.
+    Few states (about 3N): the extracted model can follow."""
+    g = Grammar()
+    g.tenum = 'Tok'
+    n = rng.choice([16, 18, 21, 25])
+    kws = ['K%d' % i for i in range(n)]
+    g.terminals = [(k, '()') for k in kws] + [('Id', 'u8'), ('Semi', '()')]
+    rng.shuffle(g.terminals)
+    T = lambda t: ('T', t)
+    N = lambda q: ('N', q)
+    tup = lambda syms: ('tuple', [(True, q) for q in syms])
+    stmts = [('S%d' % i, tup([T(k), T('Id'), T('Semi')])) for i, k in enumerate(kws)]
+    extra = []
+    kind = rng.choice(['rr', 'sr', 'rr3'])
+    if conflict:
+        if kind == 'rr':
+            stmts += [('Call', tup([N('OptA'), T('Id'), T('Semi')])), ('Index', tup([N('OptB'), T('Id'), T('Id'), T('Semi')]))]
+            extra = [dict(name='OptA', kind='enum', attrs=[], variants=[('None', ('empty',)), ('Some', tup([T('Semi')]))]),
+                     dict(name='OptB', kind='enum', attrs=[], variants=[('None', ('empty',)), ('Some', tup([T('Semi'), T('Semi')]))])]
+        elif kind == 'rr3':
+            stmts += [('Call', tup([N('OptA'), T('Id'), T('Semi')])), ('Index', tup([N('OptB'), T('Id'), T('Id'), T('Semi')])),
+                      ('Third', tup([N('OptC'), T('Id'), T('Id'), T('Id'), T('Semi')]))]
+            extra = [dict(name=q, kind='struct', attrs=[], variants=[(None, ('empty',))]) for q in ('OptA', 'OptB', 'OptC')]
+        else:
+            # an optional keyword prefix against the keyword statement itself: shift K0 / reduce OptK -> .
+            stmts += [('Pre', tup([N('OptK'), T(kws[0]), T('Semi')]))]
+            extra = [dict(name='OptK', kind='enum', attrs=[], variants=[('None', ('empty',)), ('Some', tup([T('Id')]))])]
+    else:
+        stmts += [('Call', tup([N('OptA'), T('Id'), T('Semi')]))]
+        extra = [dict(name='OptA', kind='enum', attrs=[], variants=[('None', ('empty',)), ('Some', tup([T('Semi')]))])]
+    rng.shuffle(stmts)
+    lst = dict(name='List', kind='enum', attrs=[], variants=[('One', tup([N('Stmt')])), ('Cons', tup([N('List'), N('Stmt')]))])
+    stmt = dict(name='Stmt', kind='enum', attrs=[], variants=stmts)
+    g.start = 'List'
+    r = rng.random()
+    g.nts = (extra + [lst, stmt]) if r < 0.35 else ([lst, stmt] + extra) if r < 0.7 else ([lst] + extra + [stmt])
     return g
 
 
